@@ -92,9 +92,10 @@ def run_e2e(args):
                             t.join(timeout=10)
                     opens["n"] = 0
                     try:
-                        got, _ = I.run_iface(ds, iface, "train", shuffle=shuffle, T=T, repeat=True, take=a["k"])
+                        real_iface, rep_ = ("tf", False) if iface == "tf_norepeat" else (iface, True)
+                        got, _ = I.run_iface(ds, real_iface, "train", shuffle=shuffle, T=T, repeat=rep_, take=a["k"])
                         # process_and_list calls iterate_shard: count each shard once
-                        n_open = opens["n"] // (2 if iface == "concurrent" else 1)
+                        n_open = opens["n"] // (2 if real_iface in ("concurrent", "tf") else 1)
                         res.append({"iface": iface, "shuffle": shuffle, "T": T, "nshards": nshards, "opens": n_open, "got": len(got)})
                     except Exception as e:  # noqa: BLE001
                         res.append({"iface": iface, "shuffle": shuffle, "T": T, "nshards": nshards, "error": f"{type(e).__name__}: {str(e)[:150]}"})
@@ -114,6 +115,10 @@ def bound_opens(iface, shuffle, T, k, eps):
         return need + (3 * T + 3 if shuffle else T) + 1
     if iface == "async":
         return need + (T if shuffle else 0) + 1
+    if iface in ("tf", "tf_norepeat"):
+        # tf.data drives the concurrent generator and may prefetch a few examples (prefetch=1, tf's own shuffle buffer of `shuffle` examples)
+        T = T or 1
+        return math.ceil((k + 2 + shuffle) / eps) + (3 * T + 3 if shuffle else T) + 4
     return None
 
 
@@ -182,7 +187,10 @@ def run(ctx):
     eargs = []
     for i, fmt in enumerate(["fb", "npz"]):
         eps = 2
-        cfgs = [("sync", 0, 1), ("sync", 5, 1), ("concurrent", 0, 2), ("concurrent", 3, 2), ("async", 0, 2), ("async", 3, 2)]
+        cfgs = [("sync", 0, 1), ("sync", 5, 1), ("concurrent", 0, 2), ("concurrent", 3, 2), ("async", 0, 2), ("async", 3, 2),
+                # tf.data over the concurrent generator; file_parallelism=None is an accepted value of as_tfdataset (kept to a
+                # finite pass so that a reader which takes "everything" as one batch terminates)
+                ("tf", 0, 2), ("tf", 3, 2), ("tf_norepeat", 0, None)]
         eargs.append({"root": str(ctx.scratch / f"c14_{i}"), "fmt": fmt, "eps": eps, "k": 7, "sizes": [12, 40] if not ctx.thorough else [12, 40, 160], "configs": cfgs})
     eres = child.call("harness.checks.c14", "run_e2e", eargs, timeout=900)
     nrun = 0
@@ -199,7 +207,8 @@ def run(ctx):
                            {"case": r["case"], "run": x})
             grp[(x["iface"], x["shuffle"], x["T"])].append(x["opens"])
         for key, v in grp.items():
-            if max(v) - min(v) > 1 and key[1] == 0:
+            tol = 1 if not key[0].startswith("tf") else (key[2] or 1) + 2      # tf.data prefetches in its own threads: timing-dependent by a few shards
+            if max(v) - min(v) > tol and key[1] == 0:
                 ctx.report({"kind": "opens-depend-on-size", "iface": key[0]}, f"{key}: shard opens vary with the dataset size: {v}", {"case": r["case"]})
     if corr_bad and not ctx.violations and not ctx.known_hits:
         ctx.report({"kind": "correspondence"}, "read-ahead measured on the real generator differs from the monitor's",
